@@ -376,7 +376,7 @@ def check(seq, shape, perm, inner_reverse, resid_scheme, extra, setname, stash, 
         acc.violation(sig, desc, case)
 
 
-def check_modification(seq, shape, perm, inner_reverse, modified, acc, sample=False, context=False, two_kinds=False):
+def check_modification(seq, shape, perm, inner_reverse, modified, acc, sample=False, context=False, two_kinds=False, anchor_weight=1):
     """A modification mapping: residues of type A listed in `modified` carry an extra atom x1 bonded to a3 and the label of the
     from-modification MODA; the mapping MODA -> MODB overlays bead BB (attribute replaced) and creates one new bead XB."""
     import vermouth
@@ -384,7 +384,7 @@ def check_modification(seq, shape, perm, inner_reverse, modified, acc, sample=Fa
     from vermouth.molecule import Modification
     from vermouth.processors.do_mapping import do_mapping
     case = {'layer': 'modification', 'seq': ''.join(seq), 'shape': shape, 'perm': list(perm), 'inner_reverse': inner_reverse, 'modified': list(modified),
-            'context': context, 'two_kinds': two_kinds}
+            'context': context, 'two_kinds': two_kinds, 'anchor_weight': anchor_weight}
     ff_from, ff_to, mappings, specs = build_mappings('many-to-one')
     mod_from = Modification(force_field=ff_from)
     mod_from.name = 'MODA'
@@ -411,7 +411,8 @@ def check_modification(seq, shape, perm, inner_reverse, modified, acc, sample=Fa
         mappings['fa']['fb'][('MODA',)] = Mapping(map_from, mod_to, {'a3': {'BB': 1}, 'x1': {'XB': 1}, 'b1': {'NB': 1}}, {}, ff_from=ff_from,
                                                    ff_to=ff_to, names=('MODA',), type='modification')
     else:
-        mappings['fa']['fb'][('MODA',)] = Mapping(mod_from, mod_to, {'a3': {'BB': 1}, 'x1': {'XB': 1}}, {}, ff_from=ff_from, ff_to=ff_to,
+        # the modification mapping states its own weight for the anchor atom: that is what the overlaid particle records
+        mappings['fa']['fb'][('MODA',)] = Mapping(mod_from, mod_to, {'a3': {'BB': anchor_weight}, 'x1': {'XB': 1}}, {}, ff_from=ff_from, ff_to=ff_to,
                                                    names=('MODA',), type='modification')
     kind_of = {r: 'A' for r in modified}
     mod_from2 = None
@@ -481,6 +482,15 @@ def check_modification(seq, shape, perm, inner_reverse, modified, acc, sample=Fa
         if not problems:
             for r in range(len(seq)):
                 k, d = bb_of_res[r]
+                got_w = {mol.nodes[m]['tag'].split(':')[1]: w for m, w in d.get('mapping_weights', {}).items()}
+                if seq[r] == 'A':
+                    want_w = {'a1': 1.0, 'a2': 1.0, 'a3': float(anchor_weight) if (r in modified and not context and kind_of.get(r, 'A') == 'A') else 1.0}
+                else:
+                    want_w = {'b1': 1.0, 'b2': 2.0}
+                if got_w != want_w:
+                    problems.append(('c01:mod-weights', 'BB of residue %d (%s) records the weights %r, the mappings assign %r' % (
+                        r, 'modified' if r in modified else 'plain', got_w, want_w)))
+                    break
                 want_charge = -1 if r in modified else None
                 if d.get('charge') != want_charge:
                     problems.append(('c01:mod-replace', 'BB of residue %d has charge %r, the modification mapping says %r' % (r, d.get('charge'), want_charge)))
@@ -581,7 +591,8 @@ def work(task):
     for n, item in enumerate(task):
         if item[0] == 'modification':
             check_modification(*item[1:6], acc, sample=(acc.states % 1009 == 0), context=(len(item) > 6 and item[6] is True),
-                               two_kinds=(len(item) > 6 and item[6] == 'two-kinds'))
+                               two_kinds=(len(item) > 6 and item[6] == 'two-kinds'),
+                               anchor_weight=(3 if len(item) > 6 and item[6] == 'anchor-3' else 1))
         else:
             check(*item, acc, sample=(acc.states % 5003 == 0))
     return acc
@@ -635,6 +646,8 @@ def run(ctx):
                                     items.append(('modification', seq, shape, perm, inner, modified, True))
                                 if len(modified) >= 2:
                                     items.append(('modification', seq, shape, perm, inner, modified, 'two-kinds'))
+                                if modified and inner in (False, 'spread'):
+                                    items.append(('modification', seq, shape, perm, inner, modified, 'anchor-3'))
     acc = Acc()
     for part in common.pmap(work, list(common.chunked(items, max(1, len(items) // 96)))):
         acc += part
@@ -679,7 +692,8 @@ def replay(case):
         return [(s, d) for s, d, _ in acc.violations]
     if case.get('layer') == 'modification':
         check_modification(tuple(case['seq']), case['shape'], tuple(case['perm']), case['inner_reverse'], tuple(case['modified']), acc,
-                           context=case.get('context', False), two_kinds=case.get('two_kinds', False))
+                           context=case.get('context', False), two_kinds=case.get('two_kinds', False),
+                           anchor_weight=case.get('anchor_weight', 1))
         return [(s, d) for s, d, _ in acc.violations]
     check(tuple(case['seq']), case['shape'], tuple(case['perm']), case['inner_reverse'], case['resids'], case['extra'],
           case['mapset'], case['stash'], acc)
